@@ -132,7 +132,8 @@ Definition dtab (f : fn) (i : nat) : option expr :=
 
 (* ------------------------------------------------------------------ generic evaluation *)
 Section Eval.
-  Context {K : Type} (ofQ : Q -> K) (ps : prim -> list K -> K).
+  (* st: how undefinedness of an argument propagates (python evaluates every argument: strict) *)
+  Context {K : Type} (ofQ : Q -> K) (ps : prim -> list K -> K) (st : list K -> K -> K).
 
   Fixpoint feval (args : list K) (e : fexpr) : K :=
     match e with
@@ -147,7 +148,7 @@ Section Eval.
     | Const q => ofQ q
     | Var x => rho x
     | Proxy n => px n
-    | App f args => feval (map (geval rho px) args) (fwd f)
+    | App f args => st (map (geval rho px) args) (feval (map (geval rho px) args) (fwd f))
     end.
 End Eval.
 
@@ -180,8 +181,9 @@ Definition primR (p : prim) (l : list R) : R :=
   | _, _ => 0
   end.
 
-Definition eval (rho : string -> R) (e : expr) : R := geval Q2R primR rho (fun _ => 0) e.
-Definition peval (rho : string -> R) (px : nat -> R) (e : expr) : R := geval Q2R primR rho px e.
+Definition stR (_ : list R) (r : R) : R := r.
+Definition eval (rho : string -> R) (e : expr) : R := geval Q2R primR stR rho (fun _ => 0) e.
+Definition peval (rho : string -> R) (px : nat -> R) (e : expr) : R := geval Q2R primR stR rho px e.
 Local Close Scope R_scope.
 
 (* ---- instance option Qc (executed with vm_compute): None = not a rational computation / undefined *)
@@ -219,8 +221,10 @@ Definition primQ (p : prim) (l : list (option Qc)) : option Qc :=
   | _, _ => None
   end.
 
+Definition stQ (l : list (option Qc)) (r : option Qc) : option Qc :=
+  if forallb (fun a => match a with Some _ => true | None => false end) l then r else None.
 Definition evalQ (rho : string -> option Qc) (e : expr) : option Qc :=
-  geval (fun q => Some (Q2Qc q)) primQ rho (fun _ => None) e.
+  geval (fun q => Some (Q2Qc q)) primQ stQ rho (fun _ => None) e.
 
 (* ------------------------------------------------------------------ variables, proxies, substitution *)
 Fixpoint vars (e : expr) : list string :=
